@@ -16,7 +16,8 @@ SHARDS = {"quick": 8, "thorough": 16}
 
 NAMES = ["t1", "t2", "dir/t3"]
 NSS = ["u1", "u2", 0]  # 0 is a namespace like any other (a tenant id), not "no namespace"
-KINDS = ["cdict", "cchoice", "cfs", "cns", "cnsfs"]
+NS_KINDS = ("cns", "cnsfs", "cnschoice")
+KINDS = ["cdict", "cchoice", "cfs", "cns", "cnsfs", "cnschoice"]  # cnschoice: choice loader over namespace-aware children
 
 
 def text_of(ns, name: str, version: int) -> str:
@@ -85,7 +86,7 @@ class Store:
         self.low = 1_600_000_000
 
     def keys(self):
-        if self.kind in ("cns", "cnsfs"):
+        if self.kind in NS_KINDS:
             return [(ns, n) for ns in [None, *NSS] for n in NAMES]
         return [(None, n) for n in NAMES]
 
@@ -104,7 +105,7 @@ class Store:
                 self.tick += 10
                 stamp = self.tick
             os.utime(path, (stamp, stamp))
-        elif self.kind == "cchoice":
+        elif self.kind in ("cchoice", "cnschoice"):
             (self.dict_a if name != "t2" else self.dict_b)[key] = text
         else:
             self.dict_a[key] = text
@@ -143,6 +144,10 @@ def build(case, scratch):
     elif kind == "cchoice":
         caching = CachingChoiceLoader([DictLoader(store.dict_a), DictLoader(store.dict_b)], **kw)
         twin = ChoiceLoader([DictLoader(store.dict_a), DictLoader(store.dict_b)])
+    elif kind == "cnschoice":
+        # the children select the source by the namespace keyword / context global; the choice loader has to pass both on
+        caching = CachingChoiceLoader([NsDict(store.dict_a), NsDict(store.dict_b)], **kw)
+        twin = ChoiceLoader([NsDict(store.dict_a), NsDict(store.dict_b)])
     elif kind == "cfs":
         caching, twin = CachingFileSystemLoader(scratch.path, **kw), FileSystemLoader(scratch.path)
     elif kind == "cns":
@@ -222,7 +227,7 @@ def evaluate(case) -> Verdict:
             got = _request(cenv, op)
             want = _request(tenv, op)
             _, mode, name, how, ns, glob = op
-            eff_ns = ns if (how in ("kw", "ctx") and kind in ("cns", "cnsfs")) else None
+            eff_ns = ns if (how in ("kw", "ctx") and kind in NS_KINDS) else None
             if edited:
                 nontrivial = True
             if seen_modes.get(name, mode) != mode:
@@ -280,16 +285,16 @@ def cases(draw):
     for _ in range(r.randint(3, 12)):
         c = r.random()
         if c < 0.06:
-            ops.append(["delete", r.choice([None, *NSS]) if kind in ("cns", "cnsfs") else None, r.choice(NAMES)])
+            ops.append(["delete", r.choice([None, *NSS]) if kind in NS_KINDS else None, r.choice(NAMES)])
         elif c < 0.2:
-            ops.append(["edit", r.choice([None, *NSS]) if kind in ("cns", "cnsfs") else None, r.choice(NAMES), r.random() < 0.3])
+            ops.append(["edit", r.choice([None, *NSS]) if kind in NS_KINDS else None, r.choice(NAMES), r.random() < 0.3])
         else:
             how = r.choice([None, "kw", "ctx"])
             ops.append([
                 "get", r.choice(["sync", "async"]), r.choice(NAMES + ["missing"] if r.random() < 0.1 else NAMES),
                 how, r.choice(NSS) if how else None, r.choice([None, None, "G1", "G2"]),
             ])
-    return {"kind": kind, "env_globals": r.random() < 0.4, "cap": r.randint(1, 4), "auto_reload": r.random() < 0.7, "nskey": r.random() < 0.7 or kind in ("cns", "cnsfs"), "ops": ops}
+    return {"kind": kind, "env_globals": r.random() < 0.4, "cap": r.randint(1, 4), "auto_reload": r.random() < 0.7, "nskey": r.random() < 0.7 or kind in NS_KINDS, "ops": ops}
 
 
 def campaign(ctx: core.Ctx, tier: str, shard: int, nshards: int) -> None:
@@ -305,8 +310,8 @@ def finish_kwargs(ctx: core.Ctx, tier: str) -> dict:
             "globals absent or present) or through include+render tags (namespace from the render context), and "
             "source edits (file edits set mtime explicitly: forward, or - 30% - back to before any earlier version). One of the "
             "three namespaces is the integer 0. Loaders: CachingDictLoader, CachingChoiceLoader, "
-            "CachingFileSystemLoader and namespace-aware dict and file-system loaders composed with "
-            "CachingLoaderMixin as documented; capacity 1-4, auto_reload on/off, namespace_key set/unset. After "
+            "CachingFileSystemLoader, namespace-aware dict and file-system loaders composed with "
+            "CachingLoaderMixin as documented, and CachingChoiceLoader over two namespace-aware dict loaders; capacity 1-4, auto_reload on/off, namespace_key set/unset. After "
             "every request the result (name, source, globals, rendered text, or error class) must equal the "
             "non-caching twin's on the same store; with auto_reload off any earlier version of that same "
             "(namespace, name) is accepted. Non-trivial = the history mixes sync and async for a name, or uses a "
